@@ -134,11 +134,11 @@ func r06_1(c *Ctx, rule string) {
 	root := c.P.Census().Root(cell)
 	initOK := false
 	if root != nil && root.Parent() == w {
+		// a local starts as the zero value; an explicit initialisation must be 0 too
+		initOK = true
 		for _, r := range eng.Referrers(root) {
 			if s, ok := r.(*ssa.Store); ok && s.Addr == ssa.Value(root) {
-				if k, ok := eng.ConstInt(s.Val); ok && k == 0 {
-					initOK = true
-				} else {
+				if k, ok := eng.ConstInt(s.Val); !ok || k != 0 {
 					initOK = false
 					break
 				}
@@ -230,7 +230,7 @@ func r06_3(c *Ctx, rule string) {
 	}
 	_, keyIsParam := eng.Strip(look.Index).(*ssa.Parameter)
 	c.R.Check(keyIsParam, rule, base+"/lookup-key", c.pos(look), "looked up by the requested id", "sender.files is not looked up by the requested id")
-	okKey := look.Name() + "#1"
+	okKey := c.reg(look) + "#1"
 	isEnq := func(in ssa.Instruction) bool {
 		switch x := in.(type) {
 		case *ssa.Send:
@@ -302,7 +302,7 @@ func r06_4(c *Ctx, rule string) {
 		idOK := pl.Fields["ID"] != nil && isFieldLoad(pl.Fields["ID"], "fsutil.sendHandle.id")
 		c.R.Check(!hasData && idOK, rule, c.siteName(call)+"/terminator", c.pos(call), "empty DATA for the handle's id", "the terminator is not an empty DATA packet carrying the handle's id")
 		if !hasData && idOK {
-			term[call.Name()] = call
+			term[c.reg(call)] = call
 		}
 	})
 	c.R.Exact(rule, "terminator sends in sendFile", len(term), 1)
@@ -313,7 +313,7 @@ func r06_4(c *Ctx, rule string) {
 			return false
 		}
 		r := in.(*ssa.Return)
-		if _, ok := term[x.KeyOf(r.Results[0], st)]; ok {
+		if _, ok := term[x.SourceKey(r.Results[0], st)]; ok {
 			okRet++
 			return false
 		}
